@@ -575,7 +575,7 @@ func (m *Machine) Draw(t *rapid.T, g *GenOpts) Action {
 		a.Lz = []uint64{101, 102}[uniform(t, 2, "lz")]
 		a.N = uniform(t, 1000, "tok")
 		if hostile || pct(t, 35, "interval?") {
-			a.Ident = 1 + uniform(t, 4, "interval") // explicit feeder interval in the oracle info, incl. "0"
+			a.Ident = 1 + uniform(t, 6, "interval") // explicit feeder interval in the oracle info, incl. "0" and intervals shorter than a round's window
 		}
 		if hostile || pct(t, 20, "decimals?") {
 			a.Dec = []int32{18, 19, 77, 255}[uniform(t, 4, "decimals")] // at and above the maximum the assets module accepts
@@ -773,7 +773,21 @@ func (m *Machine) drawPrice(t *rapid.T, g *GenOpts, a *Action) {
 	// perturbations
 	if pct(t, g.HostilePct, "perturb?") {
 		a.Hostile = true
-		switch uniform(t, 14, "perturb") {
+		switch uniform(t, 16, "perturb") {
+		case 14, 15:
+			// a second message in the name of another validator, "co-signed" with the first signer's key
+			if len(m.Keys) > 1 {
+				b := (a.Key + 1 + uniform(t, len(m.Keys)-1, "cosigner")) % len(m.Keys)
+				a.Co = b + 1
+				a.CoNonce = 1
+				if n, found := c.App.OracleKeeper.GetNonce(ctx, sdk.ConsAddress(m.Keys[b].ConsAddr()).String()); found {
+					for _, e := range n.NonceList {
+						if e.FeederID == a.Feeder {
+							a.CoNonce = int32(e.Value) + 1
+						}
+					}
+				}
+			}
 		case 12, 13:
 			// a price that is not a positive decimal integer
 			a.Prices[uniform(t, len(a.Prices), "badprice-i")] = []string{"", "abc", "-5", "1e5", "0x10", " 7", "0", "1.5", "99999999999999999999999999999999999999999999999999999999999999999999999999999"}[uniform(t, 9, "badprice")]
